@@ -10,9 +10,10 @@ def run(ctx):
                 "Targets concurrently under the race detector with environment steps at barriers; distinct = distinct (TTL lists, history)")
     ctx.assumptions = ["time does not advance between an upstream fetch and its store (hooked clock)", "verif clock hook replaces the package clock",
                        "race detector as the observation instrument for the data-race clause"]
-    # design level: all interleavings of 2 goroutines
+    # design level: all interleavings of 2 goroutines over entry OBJECTS (Get/Add as separate steps, remove-on-failure, evictions,
+    # cancelled callers), incl. ServedFromCache: a call that found a valid entry never asks upstream before it expires
     # unbounded design-level result (any number of goroutines, keys, generations, clock range, TTL lists): TLAPS
-    ctx.tlaps("ResolverCacheProof", deps=("ResolverCache",), theorem="Spec => [](Fresh /\\ EntryExact), MinOf uninterpreted")
+    ctx.tlaps("ResolverCacheProof", deps=("ResolverCache",), theorem="Spec => [](Fresh /\\ EntryExact /\\ KeyOK), any number of goroutines/keys/objects, MinOf uninterpreted")
     ctx.mc("ResolverCache", "MCResolverCache_concq.cfg" if ctx.quick else "MCResolverCache_conc.cfg", timeout=3000)
     if ctx.replay:
         cases = [json.load(open(ctx.replay))["replay"]["case"]]
